@@ -4,6 +4,8 @@
 #![allow(dead_code)]
 mod dynsite;
 mod gen;
+mod hosts;
+mod spec;
 mod json;
 mod proto;
 mod rng;
